@@ -144,10 +144,12 @@ func (c *fakeConn) RemotePeer() peer.ID { return c.p }
 // fakeNet mimics the swarm: the notifiee list is guarded by a RWMutex (read-
 // locked while notifications are delivered, so StopNotify waits for in-flight
 // notifications as in the real swarm); the connection state changes before the
-// notification is delivered.
+// notification is delivered. Readers of Connectedness are not synchronised
+// with events.
 type fakeNet struct {
 	network.Network
 	x         *exec
+	evLk      vsync.Mutex // one connection event (state change + its notifications) at a time: Connected is always delivered before the Disconnected of the same connection
 	mu        vsync.RWMutex
 	notifiees []network.Notifiee
 	conn      map[peer.ID]bool
@@ -183,6 +185,8 @@ func (n *fakeNet) Connectedness(p peer.ID) network.Connectedness {
 }
 
 func (n *fakeNet) set(p peer.ID, up bool) {
+	n.evLk.Lock()
+	defer n.evLk.Unlock()
 	n.conn[p] = up
 	k := "disc"
 	if up {
@@ -634,7 +638,7 @@ func scripts(thorough bool) []*script {
 		// RemovePeer races with a Disconnected notification
 		{name: "disc-vs-remove", connInit: []int{0}, pre: []string{"start", "add:0:0", "idle"}, threads: [][]string{{"disc:0"}, {"remove:0"}}, dial: fail, dialCost: 1, idle: 4},
 		// two peers: removing one must leave the other's reconnect schedule intact
-		{name: "two-peers-remove-one", pre: []string{"start", "add:0:0", "add:1:1", "idle"}, threads: [][]string{{"sleep:7500", "remove:0"}}, dial: fail, dialCost: 1, idle: 6},
+		{name: "two-peers-remove-one", pre: []string{"start", "add:0:0", "add:1:1", "idle"}, threads: [][]string{{"sleep:7500", "remove:0"}}, dial: fail, dialCost: 1, idle: 6, delta: -1},
 		// plain reconnect loop with failing / succeeding dials and all vrand answers: part (i) at the horizon
 		{name: "reconnect-loop", pre: []string{"add:0:0", "start"}, threads: [][]string{{"check"}}, dial: fail, dialCost: 0, idle: 4},
 		// dial succeeds; the peer drops the connection afterwards
